@@ -98,6 +98,8 @@ class Ctx:
             m = [k for k in active if k.get("rule") == v["rule"] and k.get("key") == v["key"]]
             (listed if m else unlisted).append(v)
         outdir = os.path.join(VERIF, "out", self.prop)
+        if os.environ.get("VERIF_NO_EVIDENCE"):
+            outdir = os.path.join(os.environ.get("VERIF_REPO", "/tmp"), ".verif_out", self.prop)
         os.makedirs(outdir, exist_ok=True)
         for fn in os.listdir(outdir):
             if fn.endswith(".json"):
@@ -125,11 +127,17 @@ class Ctx:
         print("%s [%s]: %d obligations, %d held, %d violation(s) (%d known), configs=%s, %.1fs"
               % (self.prop, self.tier, total, good, len(self.viol), len(listed),
                  ",".join(sorted(self.analysed)) or self.config, time.time() - self.t0))
+        agg = {}
         for r, c, fl, what in self.floors:
+            k = (r, what, fl)
+            agg[k] = min(agg.get(k, c), c)
+        for (r, what, fl), c in agg.items():
             print("  rule %-4s instances=%d floor=%d %s" % (r, c, fl, what))
         return 1 if unlisted else 0
 
     def write_evidence(self, n_unlisted, n_listed):
+        if os.environ.get("VERIF_NO_EVIDENCE"):
+            return
         total = len(self.obls)
         good = sum(1 for o in self.obls if o["ok"])
         distinct = set()
